@@ -19,6 +19,9 @@
 // produce is two chunks interleaving *inside* a chunk (that is a data race —
 // ThreadSanitizer's job), see DESIGN.md.
 #pragma once
+#if defined(VSHIM_THREADED)
+#include "vshim_threaded.h"
+#else
 #include <algorithm>
 #include <cstdint>
 #include <cstdlib>
@@ -671,3 +674,5 @@ using concurrent_unordered_map = std::unordered_map<K, V, H, E>;
 namespace oneapi {
 namespace tbb = ::tbb;
 }
+
+#endif  // VSHIM_THREADED
